@@ -66,6 +66,15 @@ pub(crate) mod verif_common {
     pub fn clamp_end(b: usize, n: usize, len: usize) -> usize { if b >= len { b } else if n <= len - b { b + n } else { len } }
     pub fn remaining(c: usize, len: usize) -> usize { if c < len { len - c } else { 0 } }
 
+    // ---- documented safety preconditions of std operations the crate calls, written as a stub contract (C17) ----
+    // Vec::from_raw_parts: `length <= capacity`, and `capacity` must be the capacity the pointer was allocated with
+    // (https://doc.rust-lang.org/std/vec/struct.Vec.html#method.from_raw_parts).  The second half cannot be observed from a
+    // pointer alone; a zero capacity for a non-empty, non-ZST range can never be the allocation's capacity.
+    pub unsafe fn s_from_raw_parts<T>(ptr: *mut T, length: usize, capacity: usize) -> Vec<T> {
+        assert!(length <= capacity, "[C17 std-from-raw-parts] Vec::from_raw_parts requires length <= capacity");
+        Vec::from_raw_parts_in(ptr, length, capacity, std::alloc::Global)
+    }
+
     // ---- drop ledger ----
     pub const LN: usize = 6;
     pub struct Ledger(pub UnsafeCell<[u8; LN]>);
